@@ -55,8 +55,12 @@ type SpecOpts struct {
 	FileNames func(i int) []string
 	// PieceCounts, if set, is the list the piece count is drawn from
 	PieceCounts []int
-	// Huge allows (rarely) a sparse torrent that crosses the 4 GiB mark
-	Huge bool
+	// PieceSize, if set, replaces the drawn piece length (with PieceCounts)
+	PieceSize int64
+	// Huge allows (one run in HugeOdds, default 12) a sparse torrent that
+	// crosses the 4 GiB mark
+	Huge     bool
+	HugeOdds int
 	// BigInfo allows an info dictionary of several 16 KiB metadata blocks
 	// (an extra key the client ignores), sometimes an exact multiple
 	BigInfo bool
@@ -136,7 +140,7 @@ func (s *TorSpec) Bytes(off, n int64) []byte {
 func genSparse(st *simrt.Stream, o SpecOpts) *TorSpec {
 	s := &TorSpec{Trackers: o.Trackers, URLList: o.URLList, HTTPSeeds: o.HTTPSeeds, Sparse: true, live: map[int]bool{}, cache: map[int][]byte{}}
 	ps := simrt.Pick(st, int64(256<<10), 384<<10, 1<<20, 208<<10) // (storrent's periodic work is linear in the number of pieces: keep it in the tens of thousands)
-	first := int((int64(1)<<32 + ps - 1) / ps) // first piece that starts at or beyond 4 GiB
+	first := int((int64(1)<<32 + ps - 1) / ps)                    // first piece that starts at or beyond 4 GiB
 	n := first + 1 + st.Choice(3)
 	length := int64(n) * ps
 	switch st.Weighted(3, 3, 2, 2) {
@@ -205,7 +209,10 @@ func GenTorSpec(st *simrt.Stream, o SpecOpts) *TorSpec {
 	if o.MaxPieces == 0 {
 		o.MaxPieces = 8
 	}
-	if o.Huge && st.Bool(1, 12) {
+	if o.HugeOdds == 0 {
+		o.HugeOdds = 12
+	}
+	if o.Huge && st.Bool(1, o.HugeOdds) {
 		return genSparse(st, o)
 	}
 	s := &TorSpec{Trackers: o.Trackers, URLList: o.URLList, HTTPSeeds: o.HTTPSeeds}
@@ -214,6 +221,10 @@ func GenTorSpec(st *simrt.Stream, o SpecOpts) *TorSpec {
 		n := o.PieceCounts[st.Choice(len(o.PieceCounts))]
 		g := s.Geo
 		last := g.PieceLen(g.NPieces - 1)
+		if o.PieceSize > 0 {
+			last = min(last, o.PieceSize)
+			g.PieceSize = o.PieceSize
+		}
 		g.NPieces = n
 		g.Length = int64(n-1)*g.PieceSize + last
 		s.Geo = g
